@@ -22,14 +22,15 @@
    sub-chain, forward arrays owned exclusively - with reference count = 1 + parked iterators for linked nodes and
    the header, and the removed nodes that iterators still hold kept allocated, marked level -1, unlinked, owning
    their forward array, reference count = parked iterators >= 1).
-   SKIPLIST, still PARTIAL: "present throughout => returned (exactly once under removals only)" and dictionary
-   behaviour once the iterators are gone, for histories with caller-held iterators, are proved on layer A only
-   (MapRefModel.v, run against the library on every check: an iterator only ever returns entries that are
-   present, with their current value, and nothing after it reported the end) and checked by the ASan / monitor /
-   correspondence run over generated interleavings. *)
+   C18_skiplist_survivors_dictionary - after any history, once all iterators are freed, the list is a dictionary of
+   the surviving entries, and no removed node is still allocated (MapSkipProofs4.v).
+   SKIPLIST, still PARTIAL: "present throughout => returned (exactly once under removals only)" for caller-held
+   iterators is proved on layer A only (MapRefModel.v, run against the library on every check: an iterator only ever
+   returns entries that are present, with their current value, and nothing after it reported the end) and checked by
+   the ASan / monitor / correspondence run over generated interleavings. *)
 From Coq Require Import ZArith List NArith Bool.
 Require Import Verif.gen.Consts_map Verif.MapSpec Verif.MapHashModel Verif.MapSkipModel Verif.MapRefModel
-  Verif.MapRefProofs Verif.MapHashProofs Verif.MapHashProofs2 Verif.MapHashProofs3 Verif.MapHashProofs4 Verif.MapHashProofs5 Verif.MapHashProofs6 Verif.MapSkipProofs Verif.MapSkipProofs2 Verif.MapSkipProofs3.
+  Verif.MapRefProofs Verif.MapHashProofs Verif.MapHashProofs2 Verif.MapHashProofs3 Verif.MapHashProofs4 Verif.MapHashProofs5 Verif.MapHashProofs6 Verif.MapSkipProofs Verif.MapSkipProofs2 Verif.MapSkipProofs3 Verif.MapSkipProofs4.
 Import ListNotations.
 
 (* hashtable: put a; iterator parked on a; rm a; get a (still answers 1); rm a again (succeeds, frees the node);
@@ -165,6 +166,24 @@ Example C18_skiplist_invariant_example :
   | Err _ => False
   end.
 Proof. exact skip_c18_example_state. Qed.
+
+(* skiplist: after ANY history from the empty list - iterators created, advanced, abandoned mid-way, entries removed
+   and added under them - once every iterator has been freed: the entries are in strictly ascending key order and
+   every further iterator-free history runs in lock step with the dictionary specification started from exactly the
+   surviving entries (outputs and notifier calls equal, no error) *)
+Theorem C18_skiplist_survivors_dictionary : forall ops1 s,
+  k_state_after kv_fixed k_create ops1 = Ok s -> k_iters s = [] -> k_alive s = true ->
+  exists C0, s_dict (spec_of (kabs s C0)) = live_kv (kabs s C0) /\
+    Sorted.StronglySorted (fun a b => key_ltb (fst a) (fst b) = true) (live_kv (kabs s C0)) /\
+    forall rc ops2, no_iter_ops_k ops2 = true -> ks_lockstep rc s C0 (spec_of (kabs s C0)) ops2.
+Proof. exact skip_c18_survivors. Qed.
+Print Assumptions C18_skiplist_survivors_dictionary.
+
+(* ... and the structure is then exactly a C17 skiplist: all reference counts 1, no removed node still allocated *)
+Theorem C18_skiplist_survivors_invariant : forall ops1 s,
+  k_state_after kv_fixed k_create ops1 = Ok s -> k_iters s = [] -> k_alive s = true -> exists C0, SGood17 s C0.
+Proof. exact skip_c18_survivors_invariant. Qed.
+Print Assumptions C18_skiplist_survivors_invariant.
 
 (* layer A, every state, every iterator position: what iter_next returns is a present entry with its current value
    ("no key that was never present is returned") *)
